@@ -7,9 +7,9 @@ from typing import Dict, List, Optional, Tuple
 
 from ..cfg import cfg_of
 from ..flow import BasePolicy
-from ..model import AnalysisError, FunctionInfo
+from ..model import AnalysisError, FunctionInfo, bind_args
 from ..roles import roles_of
-from ..terms import call_name, canon, cmp_normal, conjuncts, disjuncts, dotted, norm_stmt
+from ..terms import call_name, canon, cmp_normal, conjuncts, disjuncts, dotted, guard_canon, norm_stmt
 from .c12 import record_routine
 from .common import iter_stores, self_attr_of
 
@@ -20,7 +20,7 @@ EXPLANATION = (
     "call. R3: for every other try statement in the package, no call in its body can reach the target sink through the resolved call graph, "
     "so no handler in GP/search/poll code can swallow a target failure. R4 checklist + siblings: the value test is a disjunction containing "
     "not-isscalar (first), not-isfinite, not-isreal; the SD test contains not-isscalar (first), not-isfinite, not-isreal and sd <= 0; with "
-    "specified noise a non-(value, SD) pair raises ValueError; __call__ and add agree. Decides the shape of the wrapper on all paths."
+    "specified noise a non-(value, SD) pair raises ValueError; __call__ and add agree. R5 the value/SD recorded are the target's own outputs (unwrapping only, also through a validation helper). R6 a first-element extraction from the target's value needs a size-1 guard (or a value already known not to be an array). Decides the shape of the wrapper on all paths."
 )
 
 
@@ -92,27 +92,86 @@ def validation_tests(prog, fn: FunctionInfo):
 
 
 class _TargetPolicy(BasePolicy):
-    """T = the target's own return value, through unwrapping only."""
+    """T = the target's own return value, through unwrapping only;
+    NA = known not to be an ndarray (scalar), established by isinstance tests / .item()."""
 
     row_select_preserves = True
 
-    def __init__(self, sink):
+    def __init__(self, sink, prog=None, fn=None, seeds=None):
         self.sink = sink
+        self.prog, self.fn = prog, fn
+        self.seeds = seeds or {}
+
+    def initial(self, flow):
+        return dict(self.seeds)
 
     def eval(self, expr, state, flow):
         if expr is self.sink:
             return frozenset({"T"})
         if isinstance(expr, ast.Constant) and expr.value is None:
-            return frozenset({"T", "NONE"})
+            return frozenset({"T", "NONE", "NA"})
         if isinstance(expr, ast.Attribute) and expr.attr == "flat":
             return self.eval(expr.value, state, flow)
+        if isinstance(expr, ast.Call) and isinstance(expr.func, ast.Attribute) and expr.func.attr == "item" and not expr.args:
+            return (self.eval(expr.func.value, state, flow) - {"NONE"}) | {"NA"}
+        if isinstance(expr, ast.Subscript) and isinstance(expr.value, ast.Attribute) and expr.value.attr == "flat":
+            return self.eval(expr.value.value, state, flow) | {"NA"}
         return super().eval(expr, state, flow)
+
+    def eval_call(self, expr, state, flow):
+        # a helper of the same class that hands its (validated / unwrapped) argument back
+        if self.prog is not None and self.fn is not None:
+            from ..flow import TagFlow
+            from ..model import bind_args as _b
+
+            tg = [t for t in self.prog.resolve_call(self.fn, expr) if isinstance(t, FunctionInfo) and t.cls is self.fn.cls]
+            if len(tg) == 1:
+                b = _b(tg[0], expr)
+                seeds = {p: self.eval(a, state, flow) for p, a in b.items()}
+                sub = TagFlow(self.prog, tg[0], _TargetPolicy(None, None, None, seeds))
+                acc = None
+                for n in ast.walk(tg[0].node):
+                    if isinstance(n, ast.Return) and n.value is not None:
+                        t = sub.tags(n.value)
+                        if t is None:
+                            continue
+                        acc = t if acc is None else acc & t
+                return acc or frozenset()
+        return frozenset()
 
     def eval_unpack(self, value, i, n, state, flow):
         t = self.eval(value, state, flow)
         if "T" in t:
             return frozenset({"T"})
         return super().eval_unpack(value, i, n, state, flow)
+
+    def refine(self, test, polarity, state, flow):
+        # isinstance(v, np.ndarray): on the false edge v is not an array
+        if not polarity and isinstance(test, ast.Call) and isinstance(test.func, ast.Name) and test.func.id == "isinstance" and len(test.args) == 2 and "ndarray" in canon(test.args[1]):
+            from ..flow import path_of
+
+            p = path_of(test.args[0])
+            if p is not None:
+                state[p] = state.get(p, frozenset()) | {"NA"}
+        return state
+
+
+def _first_element_extractions(fn_node):
+    """expressions that reduce an array to its first element without checking its size."""
+    out = []
+    for n in ast.walk(fn_node):
+        if isinstance(n, ast.Subscript) and isinstance(n.ctx, ast.Load) and isinstance(n.slice, ast.Constant) and n.slice.value == 0:
+            base = n.value
+            src = None
+            if isinstance(base, ast.Attribute) and base.attr == "flat":
+                src = base.value
+            elif isinstance(base, ast.Call) and isinstance(base.func, ast.Attribute) and base.func.attr in ("ravel", "flatten"):
+                src = base.func.value
+            if src is not None:
+                while isinstance(src, ast.Call) and call_name(src) in ("np.array", "np.asarray", "np.atleast_1d") and src.args:
+                    src = src.args[0]
+                out.append((n, src))
+    return out
 
 
 def check(ctx):
@@ -255,6 +314,13 @@ def check(ctx):
         ctx.check(cfg.dominates(tn.id, rn.id), lc, node, "validation dominates the record call", "an observation can be recorded without passing this validation test", construct=f"record not dominated by {norm_stmt(node.test)[:80]}")
         for inc in incs:
             ctx.check(cfg.dominates(tn.id, cfg.node_of(inc).id), lc, node, "validation dominates func_count += 1", "func_count can advance without passing this validation test", construct=f"count not dominated by {norm_stmt(node.test)[:80]}")
+    for c, tg in prog.calls_in(lc):
+        for t in tg:
+            if isinstance(t, FunctionInfo) and t.cls is lc.cls and t is not rec and validation_tests(prog, t):
+                hn = cfg.node_of(c)
+                ctx.check(cfg.dominates(hn.id, rn.id), lc, c, f"validation helper {t.short} dominates the record call", "an observation can be recorded without passing the validation helper", construct=f"record not dominated by {t.short}")
+                for inc in incs:
+                    ctx.check(cfg.dominates(hn.id, cfg.node_of(inc).id), lc, c, f"validation helper {t.short} dominates func_count += 1", "func_count can advance without passing the validation helper", construct=f"count not dominated by {t.short}")
     sk = cfg.node_of(sink)
     ctx.check(cfg.dominates(sk.id, rn.id), lc, rec_call, "target call dominates the record call", "the record call is reachable without the target having been called")
     # the value recorded is the value validated (no re-computation in between)
@@ -264,7 +330,7 @@ def check(ctx):
     ctx.rule("R5", "the value and SD that are validated and recorded are the target's own outputs (unwrapping only)", floor=2)
     from ..flow import TagFlow
 
-    tf = TagFlow(prog, lc, _TargetPolicy(sink))
+    tf = TagFlow(prog, lc, _TargetPolicy(sink, prog, lc))
     for i, what in ((2, "value"), (3, "SD")):
         if len(rec_call.args) > i:
             tg = tf.tags(rec_call.args[i])
@@ -274,6 +340,42 @@ def check(ctx):
             ctx.check(okv, lc, rec_call, f"recorded {what} {canon(rec_call.args[i])} stems from the target's return value",
                       f"the {what} handed to the record routine is not the target's own return value (it was replaced or transformed after the call): invalid values can be masked",
                       construct=f"recorded {what} <- {canon(rec_call.args[i])} without target provenance")
+
+    # ------------------------------------------------------------------ R6
+    ctx.rule("R6", "the target's value is reduced to its first element only when its size is known to be 1", floor=1)
+    scopes = [(lc, tf)]
+    for c, tg in prog.calls_in(lc):
+        for t in tg:
+            if isinstance(t, FunctionInfo) and t.cls is lc.cls and t is not rec and t is not lc:
+                b = bind_args(t, c)
+                st = tf.state_before(c) or {}
+                seeds = {p_: tf.policy.eval(a, st, tf) for p_, a in b.items()}
+                if any("T" in v for v in seeds.values()):
+                    scopes.append((t, TagFlow(prog, t, _TargetPolicy(None, prog, t, seeds))))
+    n6 = 0
+    for f_, fl_ in scopes:
+        for node, src in _first_element_extractions(f_.node):
+            tg = fl_.tags(src)
+            if tg is None or "T" not in tg:
+                continue
+            n6 += 1
+            g = guard_canon(prog, f_, node)
+            sized = any(x in (f"(1 == np.size({canon(src)}))", f"(1 == {canon(src)}.size)", f"(1 == len({canon(src)}))") for x in g)
+            if sized or "NA" in tg:
+                ctx.ok(f_, node, f"{canon(node)[:40]} under a size-1 guard" if sized else f"{canon(node)[:40]}: value already known not to be an array")
+            else:
+                ctx.fail(f_, node, f"'{canon(node)[:50]}' takes the first element of the target's return value without establishing that it has exactly one element: a vector-valued return is silently accepted instead of raising ValueError",
+                         construct=f"unguarded first-element extraction {canon(node)[:50]}")
+    if n6 == 0:
+        ctx.rules["R6"].floor = 0
+    # the handler must not be able to fail itself before the bare raise
+    if tr is not None:
+        for h in tr.handlers:
+            if h.name:
+                for n in ast.walk(h):
+                    if isinstance(n, ast.Subscript) and isinstance(n.ctx, ast.Load) and canon(n.value) == f"{h.name}.args" and isinstance(n.slice, ast.Constant):
+                        ctx.fail(lc, n, f"the handler indexes {h.name}.args[{n.slice.value}]: for an exception raised without arguments (bare assert, custom exceptions) or with a non-string first argument the handler itself fails and a different exception leaves optimize()",
+                                 construct=f"handler indexes {h.name}.args", rule="R1")
 
     # ------------------------------------------------------------------ R3
     ctx.rule("R3", "no other try body in the package can reach the target", floor=5)
